@@ -1,7 +1,7 @@
 from driver import Job
 
 _KINDS_V12 = ["TimeLock", "Multisig", "OracleVoting2", "OracleLock", "RefundableOracleLock2"]
-_WASM = ["wasm:erc20", "wasm:inc_func", "wasm:sum_func", "wasm:shared-fungible-token-wallet", "wasm:test-cases"]
+_WASM = ["wasm:erc20", "wasm:inc_func", "wasm:sum_func", "wasm:shared-fungible-token-wallet", "wasm:test-cases", "wasm:spender"]
 
 _floors = {
     "twins": (1800, 15000), "oracle1_failures_checked": (700, 6000), "oracle4_success_checked": (600, 5000),
@@ -32,6 +32,7 @@ for k, ms in {
     "wasm:sum_func": ["invoke"],
     "wasm:test-cases": ["test"],
     "wasm:shared-fungible-token-wallet": ["getBalance"],
+    "wasm:spender": ["send", "burn"],
 }.items():
     for m in ms:
         _floors["%s.%s:ok" % (k, m)] = 1
@@ -63,7 +64,7 @@ SPEC = {
     "rule": "case = one contract tx evaluated as a twin pair (or one designated multi-tx block); distinct_nontrivial = distinct "
             "(contract type, tx kind, method, outcome, error class, gas failure point) tuples that were included in a block and produced a receipt",
     "jobs": [
-        Job("twins", "verifsim", "^TestVerifC15$", shards=(8, 16), timeout=(900, 3600)),
+        Job("twins", "verifsim", "^TestVerifC15$", shards=(8, 16), timeout=(900, 7200)),
         # scripted form of the designated same-block classes (votes + finishVoting, deposits + refund), V12 and V9
         Job("sameblock", "verifsim", "^TestVerifC15SameBlock$", shards=(1, 1), timeout=(600, 600)),
         # checkptr at the cgo boundary + race detector on a slice (WASM and embedded)
@@ -82,6 +83,8 @@ SPEC = {
         "the bundled binaries cannot reach a SUCCESSFUL sub-deployment on a chain: test-cases grants its sub-deployment 1e6 WASM gas while a deployment costs >= 3e6, and the "
         "shared-fungible-token wallet has no way to mint tokens; failing sub-deployments inside successful calls and successful cross-contract calls (sum_func -> inc_func -> callback) are covered",
         "terminating a STARTED oracle voting needs > 30 000 blocks after the public phase; only the termination of abandoned pending votings (30 days of virtual time) is driven to success",
+        "besides the bundled WASM contracts (none of which ever moves coins) a 216-byte hand-assembled module 'wasm:spender' (source in c15_contracts.go) forwards its arguments to the "
+        "host's create_transfer_promise / burn, so that 'a contract can never send more than it holds' is exercised for WASM too",
         "the ERC-20 mini-model exempts transfers to oneself: the bundled contract credits them without debiting (contract semantics, not the node's)",
     ],
 }
